@@ -97,6 +97,7 @@ impl Sim {
         chain.height = spec.height;
         chain.time_ns = spec.time_ns;
         chain.querier.markers = spec.markers.clone();
+        chain.querier.marker_required_attrs = spec.marker_required_attrs.clone();
         chain.querier.attrs = spec.attrs.clone();
         let mut sim = Sim {
             spec: spec.clone(),
